@@ -18,11 +18,15 @@ rationals and the harness compares bit for bit).  Hypothesis `∀ t, FlOK fl u t
 divided by a rounded division or as `fl (a * fl (1/b))` (what XLA-CPU emits for a constant or broadcast
 divisor: two roundings, relative error `2u + u²`).
 
+`…_fl32` theorems have no hypothesis on `fl`: `fl32` (the function the driver runs) is proved to obey the
+model on `{0} ∪ {|t| ≥ 2⁻¹²⁶}` (`fl32_obeys_model`) and the column guard `NormalCol 2⁻¹²⁶ N` (decidable) keeps
+every rounded operation there.
+
 Not covered by theorems (shown only on executed inputs): flush-to-zero / denormals-are-zero
 (known findings K1, K2, K4), overflow of `N*bucket` at `max|x| = FLT_MAX` (K3) — both excluded by the
 no-underflow / no-overflow reading of `FlOK`.
 -/
-import PrecondVerif.Lemmas.QuantFp
+import PrecondVerif.Lemmas.QuantFl32
 
 set_option linter.unusedSectionVars false
 
@@ -322,6 +326,129 @@ theorem wrap_fp_witness :
     rw [show t * (1 + 1 / 256) - t = 1 / 256 * t by ring, abs_mul]
     norm_num
 
+/-! ### the executed rounding function: no residual hypothesis on `fl` -/
+
+/-- **fl32_obeys_model**.  The rounding function the driver runs (`fl32`: nearest-even to 24 significant
+bits, on exact rationals) satisfies the error-model hypothesis with `u = 2⁻²⁴` on the whole normal range
+(and above: `roundNE` has no overflow) and at zero. -/
+theorem fl32_obeys_model (t : ℚ) (ht : t = 0 ∨ (1 : ℚ) / 2 ^ 126 ≤ |t|) :
+    |fl32 t - t| ≤ 1 / 2 ^ 24 * |t| := fl32_FlOK t ht
+
+/-- **bf16_cast_error**.  `astype(bfloat16)` (the passthrough dtype): a finite result of a value of
+magnitude `≥ 2⁻¹²⁶` is within `2⁻⁸|x|` (half an 8-bit ulp) of `x`. -/
+theorem bf16_cast_error (x r : ℚ) (h : bf16Round x = some r) (hx : (1 : ℚ) / 2 ^ 126 ≤ |x|) :
+    |r - x| ≤ 1 / 2 ^ 8 * |x| := bf16Round_err h hx
+
+/-- Rounded-arithmetic round trip for any `fl` that obeys the model only on `{0} ∪ {|t| ≥ lo}`, for a column
+that satisfies the explicit guard `NormalCol lo N` (identically zero, or exact bucket `b` with
+`2·lo ≤ b`, `2·b·lo ≤ 1`, `N·lo ≤ 1` and every non-zero entry `≥ 4·lo·b`). -/
+theorem roundtrip_fp_xla_guarded (fl : α → α) (u lo : α) (rb rr : Bool) (N rows cols : Nat) (ed : Bool)
+    (x : Nat → Nat → α) (hN : 1 ≤ N) (hu : 0 ≤ u) (hNu : (N : α) * u ≤ 1 / 16) (hlo : 0 ≤ lo)
+    (hfl : FlOKAbove fl u lo) (i c : Nat) (hi : i < rows)
+    (hg : NormalCol lo N (column rows (pre ed x) c)) :
+    |dequantizeFl fl ed (quantizeFl fl rb rr N rows cols ed x) i c - x i c|
+      ≤ (1 / 2 + (3 * (N : α) + 2) * u) * (maxAbs (column rows (pre ed x) c) / (N : α)) := by
+  have hN1 : (1 : α) ≤ (N : α) := by exact_mod_cast hN
+  have hu16 : u ≤ 1 / 16 := by nlinarith
+  rw [dequantizeFl_sub' hfl.zero]
+  have hmem := mem_column (pre ed x) c hi
+  by_cases hm : 0 < maxAbs (column rows (pre ed x) c)
+  · rcases hg with h0 | ⟨g1, g2, g4, g3⟩
+    · exact absurd h0 hm.ne'
+    · obtain ⟨hub1, h1, h2, h3, h4⟩ :=
+        quantEntryFl_spec_guard hN _ hu hu16 hlo hfl rb rr hm g1 g2 g4 (g3 _ hmem)
+      have h := fp_core hN rfl hm (le_maxAbs hmem) (opErr_nonneg hu rb) hub1 (opErr_nonneg hu rr) hu h1 h2 h3 h4
+      exact le_trans h (mul_le_mul_of_nonneg_right (xla_bound_le hN hu hNu rb rr)
+        (div_nonneg (maxAbs_nonneg _) (natCast_pos'' hN).le))
+  · have h0 : maxAbs (column rows (pre ed x) c) = 0 := le_antisymm (not_lt.mp hm) (maxAbs_nonneg _)
+    have hx0 : pre ed x i c = 0 := by
+      have := le_maxAbs hmem
+      rw [h0] at this
+      exact abs_eq_zero.mp (le_antisymm this (abs_nonneg _))
+    rw [hx0, quantEntryFl_zero' hfl.zero, dequantEntryFl_zero' hfl.zero, h0]
+    simp
+
+/-- no wrap and full range under the same guard -/
+theorem no_wrap_fp_guarded (fl : α → α) (u lo : α) (rb rr : Bool) (N rows cols : Nat) (ed : Bool)
+    (x : Nat → Nat → α) (hN : 1 ≤ N) (hu : 0 ≤ u) (hNu : (N : α) * u ≤ 1 / 16) (hlo : 0 ≤ lo)
+    (hfl : FlOKAbove fl u lo) (i c : Nat) (hi : i < rows)
+    (hg : NormalCol lo N (column rows (pre ed x) c)) :
+    |(quantizeFl fl rb rr N rows cols ed x).q i c| ≤ (N : Int) ∧
+      (0 < maxAbs (column rows (pre ed x) c) → |pre ed x i c| = maxAbs (column rows (pre ed x) c) →
+        |(quantizeFl fl rb rr N rows cols ed x).q i c| = (N : Int)) := by
+  have hN1 : (1 : α) ≤ (N : α) := by exact_mod_cast hN
+  have hu16 : u ≤ 1 / 16 := by nlinarith
+  rw [quantizeFl_q]
+  have hmem := mem_column (pre ed x) c hi
+  by_cases hm : 0 < maxAbs (column rows (pre ed x) c)
+  · rcases hg with h0 | ⟨g1, g2, g4, g3⟩
+    · exact absurd h0 hm.ne'
+    · obtain ⟨hub1, h1, h2, h3, _⟩ :=
+        quantEntryFl_spec_guard hN _ hu hu16 hlo hfl rb rr hm g1 g2 g4 (g3 _ hmem)
+      exact ⟨fp_nowrap_core hN rfl hm (le_maxAbs hmem) (opErr_nonneg hu rb) hub1 (opErr_nonneg hu rr) h1 h2 h3
+          (xla_cond hN hu hNu rb rr),
+        fun _ hmax => fp_maxhit_core hN rfl hm hmax (opErr_nonneg hu rb) hub1 (opErr_nonneg hu rr) h1 h2 h3
+          (xla_cond hN hu hNu rb rr)⟩
+  · have h0 : maxAbs (column rows (pre ed x) c) = 0 := le_antisymm (not_lt.mp hm) (maxAbs_nonneg _)
+    have hx0 : pre ed x i c = 0 := by
+      have := le_maxAbs hmem
+      rw [h0] at this
+      exact abs_eq_zero.mp (le_antisymm this (abs_nonneg _))
+    rw [hx0, quantEntryFl_zero' hfl.zero]
+    exact ⟨by simp, fun h => absurd h hm⟩
+
+/-- **roundtrip_fp_xla_fl32**.  The *executed* model `quantizeFl fl32 …` (float32 rounding after every
+operation, any division variant `rb`, `rr`), for every `N` with `N·2⁻²⁴ ≤ 1/16`, round-trips every entry of
+a column satisfying the decidable guard `NormalCol 2⁻¹²⁶ N` (the column is zero, or
+`2⁻¹²⁵ ≤ max|col|/N ≤ 2¹²⁵`, `N ≤ 2¹²⁶`, non-zero entries `≥ 2⁻¹²⁴·max|col|/N`: every rounded operation
+stays in the float32 normal range) within `(1/2 + (3N+2)·2⁻²⁴)` exact buckets.  No hypothesis on `fl`. -/
+theorem roundtrip_fp_xla_fl32 (rb rr : Bool) (N rows cols : Nat) (ed : Bool) (x : Nat → Nat → ℚ)
+    (hN : 1 ≤ N) (hNu : (N : ℚ) * (1 / 2 ^ 24) ≤ 1 / 16) (i c : Nat) (hi : i < rows)
+    (hg : NormalCol (1 / 2 ^ 126) N (column rows (pre ed x) c)) :
+    |dequantizeFl fl32 ed (quantizeFl fl32 rb rr N rows cols ed x) i c - x i c|
+      ≤ (1 / 2 + (3 * (N : ℚ) + 2) * (1 / 2 ^ 24)) * (maxAbs (column rows (pre ed x) c) / (N : ℚ)) :=
+  roundtrip_fp_xla_guarded fl32 (1 / 2 ^ 24) (1 / 2 ^ 126) rb rr N rows cols ed x hN (by positivity) hNu
+    (by positivity) fl32_FlOKAbove i c hi hg
+
+/-- the guard as the driver evaluates it (`normalColB`, reported per column by op `quantize_fl32`) -/
+theorem guard_is_executed (lo : ℚ) (N : Nat) (col : List ℚ) :
+    normalColB lo N col = true ↔ NormalCol lo N col := normalColB_iff lo N col
+
+/-- **no_wrap_fp_fl32**.  Under the same guard the executed model never stores an integer outside `[-N, N]`
+and stores the entries of largest magnitude as exactly `±N`. -/
+theorem no_wrap_fp_fl32 (rb rr : Bool) (N rows cols : Nat) (ed : Bool) (x : Nat → Nat → ℚ)
+    (hN : 1 ≤ N) (hNu : (N : ℚ) * (1 / 2 ^ 24) ≤ 1 / 16) (i c : Nat) (hi : i < rows)
+    (hg : NormalCol (1 / 2 ^ 126) N (column rows (pre ed x) c)) :
+    |(quantizeFl fl32 rb rr N rows cols ed x).q i c| ≤ (N : Int) ∧
+      (0 < maxAbs (column rows (pre ed x) c) → |pre ed x i c| = maxAbs (column rows (pre ed x) c) →
+        |(quantizeFl fl32 rb rr N rows cols ed x).q i c| = (N : Int)) :=
+  no_wrap_fp_guarded fl32 (1 / 2 ^ 24) (1 / 2 ^ 126) rb rr N rows cols ed x hN (by positivity) hNu
+    (by positivity) fl32_FlOKAbove i c hi hg
+
+/-- **requantize_idempotent_fp**.  In rounded arithmetic (standard model, `N·u ≤ 1/32`; the second
+quantization may use other division variants `rb'`, `rr'`) re-quantizing a dequantized value reproduces
+every stored *integer*.  The bucket size is not reproduced exactly in general: it is
+`fl(fl(N·b)/N)`, within `(u + e + u·e) ≤ 4u` relative of the stored one (observed on the real code: 1 ulp),
+which is why the statement is about the integers — the ratio of a dequantized entry to the new bucket is
+`q(1+θ)` with `N·|θ| < 1/2`. -/
+theorem requantize_idempotent_fp (fl : α → α) (u : α) (rb rr rb' rr' : Bool) (N rows cols : Nat) (ed : Bool)
+    (x : Nat → Nat → α) (hN : 1 ≤ N) (hu : 0 ≤ u) (hNu : (N : α) * u ≤ 1 / 32) (hfl : ∀ t, FlOK fl u t)
+    (i c : Nat) (hi : i < rows) :
+    (quantizeFl fl rb' rr' N rows cols ed
+        (dequantizeFl fl ed (quantizeFl fl rb rr N rows cols ed x))).q i c
+      = (quantizeFl fl rb rr N rows cols ed x).q i c := by
+  have h0 := fl_zero hfl
+  rw [quantizeFl_q, column_pre_dequantizeFl h0, pre_dequantizeFl h0, quantizeFl_q]
+  have hmem := mem_column (pre ed x) c hi
+  by_cases hm : 0 < maxAbs (column rows (pre ed x) c)
+  · exact quantEntryFl_requant hN _ hu hNu hfl rb rr rb' rr' hm hmem
+  · have hm0 : maxAbs (column rows (pre ed x) c) = 0 := le_antisymm (not_lt.mp hm) (maxAbs_nonneg _)
+    have hx0 : pre ed x i c = 0 := by
+      have := le_maxAbs hmem
+      rw [hm0] at this
+      exact abs_eq_zero.mp (le_antisymm this (abs_nonneg _))
+    rw [hx0, quantEntryFl_zero' h0, dequantEntryFl_zero' h0, quantEntryFl_zero' h0]
+
 /-! ### dtype dispatch: float32 / bfloat16 are casts, int8 / int16 are the bucketed model -/
 
 /-- `quantized_dtype == float32`: `to_float (from_float_value x) = x` (the payload *is* `x`) -/
@@ -412,6 +539,10 @@ example (rows cols : Nat) (ed : Bool) (x : Nat → Nat → Rat) (rb rr : Bool) (
 /-- float32 rounding on a concrete int8 column: `[1/3, -1, 1/7]` rounded to float32 first -/
 example :
     (quantizeFlatFl fl32 true true 127 [3] false #[fl32 (1/3), -1, fl32 (1/7)]).q = [42, -127, 18] := by
+  decide +kernel
+
+/-- the guard of `roundtrip_fp_xla_fl32` is decidable and holds for an ordinary int16 column -/
+example : NormalCol (1 / 2 ^ 126 : ℚ) 32767 (column 3 (fromFlat 1 #[fl32 (1/3), -1, 0]) 0) := by
   decide +kernel
 
 end PrecondVerif.C11
